@@ -2500,6 +2500,42 @@ def _resolve_shared(v, env, depth=0):
     return v
 
 
+def _recv_roots(e, depth=0):
+    """names of the variables whose container (or an element of it) the
+    receiver expression e may denote: the roots of its access chain - not the
+    names that only occur in an index or an argument"""
+    while isinstance(e, (ast.Subscript, ast.Attribute, ast.Starred)):
+        e = e.value
+    if isinstance(e, ast.Name):
+        return {e.id}
+    if depth > 4:
+        return set(_names(e))
+    out = set()
+    if isinstance(e, ast.IfExp):
+        out = _recv_roots(e.body, depth + 1) | _recv_roots(e.orelse, depth + 1)
+    elif isinstance(e, ast.BoolOp):
+        for x in e.values:
+            out |= _recv_roots(x, depth + 1)
+    elif isinstance(e, (ast.List, ast.Tuple)):
+        for x in e.elts:
+            out |= _recv_roots(x, depth + 1)
+    elif isinstance(e, ast.Dict):
+        for x in e.values:
+            out |= _recv_roots(x, depth + 1)
+    elif isinstance(e, ast.Call):
+        args = list(e.args)
+        if isinstance(e.func, ast.Attribute):
+            out = _recv_roots(e.func.value, depth + 1)
+            if e.func.attr in ('get', 'setdefault', 'pop'):
+                # d.get(k, dflt): an element of d, or dflt - never the key
+                args = args[1:]
+        for x in args + [k.value for k in e.keywords]:
+            out |= _recv_roots(x, depth + 1)
+    elif isinstance(e, ast.NamedExpr):
+        out = _recv_roots(e.value, depth + 1) | {e.target.id}
+    return out
+
+
 def _shared_targets(v, env, depth=0):
     """variables whose containers v holds by reference"""
     out = set()
@@ -2551,9 +2587,32 @@ class _DInterp(Interp):
             if isinstance(v, _Ref):
                 return v.root, v.path
             k = deref(env, e.id)
+            if isinstance(env.get(k), tuple) and \
+                    _shared_targets(env[k], env):
+                return k, ()             # a tuple of other variables' lists
             return (k, ()) if isinstance(env.get(k), (list, dict)) else None
         if isinstance(e, ast.Subscript) and \
                 not isinstance(e.slice, ast.Slice):
+            if isinstance(e.value, (ast.Dict, ast.List, ast.Tuple)):
+                # a table written in place: `{True: a, False: b}[test]`
+                kv = self.ev(f, e.slice, env)
+                if kv is UNK or not isinstance(kv, (str, int, bool,
+                                                    type(None))):
+                    return None
+                if isinstance(e.value, ast.Dict):
+                    hit = None
+                    for k, x in zip(e.value.keys, e.value.values):
+                        kk = UNK if k is None else self.ev(f, k, env)
+                        if kk is UNK:
+                            return None
+                        if kk == kv:
+                            hit = x          # (the last equal key wins)
+                    return None if hit is None else self._cpath(f, hit, env)
+                elts = e.value.elts
+                if isinstance(kv, int) and -len(elts) <= kv < len(elts) and \
+                        not any(isinstance(x, ast.Starred) for x in elts):
+                    return self._cpath(f, elts[kv], env)
+                return None
             b = self._cpath(f, e.value, env)
             if b is None or b[1] is None:
                 return b
@@ -2612,11 +2671,12 @@ class _DInterp(Interp):
                 # some container reached through an expression this reading
                 # does not follow: whatever it mentions may have grown
                 env = dict(env)
-                for nm in sorted(_names(recv)):
+                for nm in sorted(_recv_roots(recv)):
                     k = deref(env, nm)
                     if isinstance(env.get(nm), _Ref):
                         k = env[nm].root
-                    if isinstance(env.get(k), (list, dict)):
+                    if isinstance(env.get(k), (list, dict)) or \
+                            _shared_targets(env.get(k), env):
                         self._blur(env, k)
                 return env
             return None
@@ -2639,6 +2699,13 @@ class _DInterp(Interp):
         env[root] = _set_path(env[root], path, new)
         return env
 
+    def _list_ref(self, f, e, env):
+        """variable whose LIST object expression e denotes, or None"""
+        if isinstance(e, ast.Starred):
+            return None
+        k = self.ref_of(f, e, env)
+        return k if k is not None and isinstance(env.get(k), list) else None
+
     def _shared_display(self, f, e, env):
         """(value, referenced variables) of a dict / list / tuple display or
         dict(k=v, ..) call some of whose elements ARE list / dict objects of
@@ -2656,7 +2723,7 @@ class _DInterp(Interp):
             vals = [k.value for k in e.keywords]
         else:
             return None
-        refs = [self.ref_of(f, x, env) for x in vals]
+        refs = [self._list_ref(f, x, env) for x in vals]
         if not any(r is not None for r in refs):
             return None
         used = sorted({r for r in refs if r is not None})
@@ -2769,7 +2836,7 @@ class _DInterp(Interp):
                 not isinstance(a.targets[0].slice, ast.Slice) and \
                 isinstance(a.targets[0].value, ast.Name):
             # `routes[key] = exe_tasks`: the table holds that very list
-            ref = self.ref_of(f, a.value, env)
+            ref = self._list_ref(f, a.value, env)
             t = a.targets[0]
             tv = env.get(deref(env, t.value.id))
             if ref is None or not isinstance(tv, dict) or \
@@ -3735,8 +3802,9 @@ def _empty_list_here(P, v, nid):
 
 def _accumulates_later(P, node, key, knames):
     """some statement reachable from node adds to the cell BACKLOG[key]
-    (+=, extend / append on the cell) under the same binding of the key"""
-    reach = P.g.reachable(node.id)
+    (+=, extend / append on the cell, a store) under the same binding of the
+    key - further on in the same pass, not in a later loop iteration"""
+    reach = P.g.reachable(node.id, no_back=True)
     for n in P.g.nodes:
         if n.id == node.id or n.id not in reach or n.kind != 'stmt' or \
                 n.ast is None or isinstance(n.ast, (ast.FunctionDef,
@@ -4791,6 +4859,69 @@ SILENT += [
         (_B, _STAR, _STAR.replace("if '*' in self._raptor_tasks:", "if '*' in self._raptor_tasks.keys():"))]),
     dict(name='control_cb: backlog table through a local alias', edits=[
         (_B, _STAR, "                cached = self._raptor_tasks\n                if '*' in cached:\n\n                    tasks = cached['*']\n                    del cached['*']\n")]),
+]
+
+# ---- round 6: routing table built from the two route lists (R20.5), backlog
+#      cell offered as a setdefault default (R20.10) ----------------------------
+_ROUTE_TABLE = ("        raptor_tasks     = list()\n"
+                "        executable_tasks = list()\n"
+                "        routes           = {True : executable_tasks,\n"
+                "                            False: raptor_tasks}\n")
+_BL_SETDEF = "                        self._raptor_tasks.setdefault(name, to_raptor[name])\n"
+
+MUTATIONS += [
+    dict(name='R20.5 table of the two route lists indexed by the inverted test', rules=('R20.5',), edits=[
+        (_M, _ROUTE_LISTS, _ROUTE_TABLE),
+        (_M, _ROUTE_IF, "            routes[mode != TASK_EXECUTABLE].append(task)\n")]),
+    dict(name='R20.5 table of the two route lists built with the lists exchanged', rules=('R20.5',), edits=[
+        (_M, _ROUTE_LISTS, _ROUTE_TABLE.replace('True : executable_tasks', 'True : raptor_tasks').replace('False: raptor_tasks', 'False: executable_tasks')),
+        (_M, _ROUTE_IF, "            routes[mode == TASK_EXECUTABLE].append(task)\n")]),
+    dict(name='R20.5 table filled by stores, both keys given the same list', rules=('R20.5',), edits=[
+        (_M, _ROUTE_LISTS, _ROUTE_LISTS + "        routes = dict()\n        routes[True]  = executable_tasks\n        routes[False] = executable_tasks\n"),
+        (_M, _ROUTE_IF, "            bucket = routes[mode == TASK_EXECUTABLE]\n            bucket += [task]\n")]),
+    dict(name='R20.5 table holds copies of the route lists', rules=('R20.5',), edits=[
+        (_M, _ROUTE_LISTS, _ROUTE_LISTS + "        routes = {True: list(executable_tasks), False: list(raptor_tasks)}\n"),
+        (_M, _ROUTE_IF, "            routes[mode == TASK_EXECUTABLE].append(task)\n")],
+         note='the submit calls get the two empty lists: every request is dropped'),
+    dict(name='R20.5 table of the route lists written in place, lists exchanged', rules=('R20.5',), edits=[
+        (_M, _ROUTE_IF, "            {False: executable_tasks, True: raptor_tasks}[mode == TASK_EXECUTABLE].append(task)\n")]),
+    dict(name='R20.10 seed C20-i5: backlog cell offered as setdefault default', rules=('R20.10',), edits=[
+        (_B, _BL_BLOCK, _BL_SETDEF)]),
+    dict(name='R20.10 seed C20-i5 with the batch hoisted into a local', rules=('R20.10',), edits=[
+        (_B, _BL_BLOCK, "                        batch = to_raptor[name]\n                        self._raptor_tasks.setdefault(name, batch)\n")]),
+    dict(name='R20.10 setdefault kept on the path where the cell exists', rules=('R20.10',), edits=[
+        (_B, _BL_ADD, "    " + _BL_SETDEF)]),
+    dict(name='R20.10 backlog cell stored with update({name: batch})', rules=('R20.10',), edits=[
+        (_B, _BL_BLOCK, "                        self._raptor_tasks.update({name: to_raptor[name]})\n")]),
+]
+
+SILENT += [
+    dict(name='_submit_tasks: table of the two route lists indexed by the mode test (seed C20-r12)', edits=[
+        (_M, _ROUTE_LISTS, _ROUTE_TABLE),
+        (_M, _ROUTE_IF, "            routes[mode == TASK_EXECUTABLE].append(task)\n")]),
+    dict(name='_submit_tasks: dict(exe=.., other=..) of the route lists, bucket held in a local', edits=[
+        (_M, _ROUTE_LISTS, _ROUTE_LISTS + "        routes = dict(exe=executable_tasks, other=raptor_tasks)\n"),
+        (_M, _ROUTE_IF, "            bucket = routes['exe' if mode == TASK_EXECUTABLE else 'other']\n            bucket.append(task)\n")]),
+    dict(name='_submit_tasks: table filled by stores, bucket grown with +=', edits=[
+        (_M, _ROUTE_LISTS, _ROUTE_LISTS + "        routes = dict()\n        routes[True]  = executable_tasks\n        routes[False] = raptor_tasks\n"),
+        (_M, _ROUTE_IF, "            routes[mode == TASK_EXECUTABLE] += [task]\n")]),
+    dict(name='_submit_tasks: tuple of the route lists indexed by int(test), extend', edits=[
+        (_M, _ROUTE_LISTS, _ROUTE_LISTS + "        routes = (raptor_tasks, executable_tasks)\n"),
+        (_M, _ROUTE_IF, "            routes[int(mode == TASK_EXECUTABLE)].extend([task])\n")]),
+    dict(name='_submit_tasks: table of the route lists, submit calls read the table', edits=[
+        (_M, _ROUTE_LISTS, _ROUTE_TABLE),
+        (_M, _ROUTE_IF, "            bucket = routes[mode == TASK_EXECUTABLE]\n            bucket.append(task)\n"),
+        (_M, _ROUTE_CALLS, "        self._submit_executable_tasks(routes[True])\n        self._submit_raptor_tasks(routes[False])")]),
+    dict(name='_submit_tasks: table of the route lists written in place at the append', edits=[
+        (_M, _ROUTE_IF, "            {True: executable_tasks, False: raptor_tasks}[mode == TASK_EXECUTABLE].append(task)\n")]),
+    dict(name='R20.10 setdefault with the batch only where the cell is absent', edits=[
+        (_B, _BL_NEW, "    " + _BL_SETDEF)]),
+    dict(name='R20.10 empty cell by setdefault, then +=', edits=[
+        (_B, _BL_BLOCK, "                        self._raptor_tasks.setdefault(name, [])\n                        self._raptor_tasks[name] += to_raptor[name]\n")]),
+    dict(name='R20.10 empty cell from a local by setdefault, then extend', edits=[
+        (_B, _BL_BLOCK, "                        fresh = list()\n                        self._raptor_tasks.setdefault(name, fresh)\n                        self._raptor_tasks[name].extend(to_raptor[name])\n")]),
+    dict(name='R20.10 cell created with update({name: batch}) where it is absent', edits=[
+        (_B, _BL_NEW, "                            self._raptor_tasks.update({name: to_raptor[name]})\n")]),
 ]
 
 from .c14 import corpus_variants          # noqa: E402
